@@ -104,13 +104,22 @@ def patterns(t):
         ('P2<X,XG>', P2.new([X, XG])), ('G<out XA>', G.new([out(XA)])), ('P2<A,X>', P2.new([A, X])),
         ('P2<out X,in Y>', P2.new([out(X), inn(Y)])), ('H<X>', H.new([X])), ('G<H<X>>', G.new([H.new([X])])),
         ('P2<G<out X>,Y>', P2.new([G.new([out(X)]), Y])),
+        # a variable bounded by a ground / dependent instantiation next to another variable
+        ('P2<X,TGA>', P2.new([X, tp.TypeParameter('TGA', bound=G.new([A]))])),
+        ('P2<X,TPX>', P2.new([X, tp.TypeParameter('TPX', bound=P2.new([A, X]))])),
+        # the same variable nested and repeated
+        ('P2<G<X>,X>', P2.new([G.new([X]), X])), ('P2<H<X>,G<X>>', P2.new([H.new([X]), G.new([X])])),
     ]
 
 
 def var_targets(t):
     """type variables as targets (a generic method unified against another generic signature)"""
+    X = tp.TypeParameter('X')        # the variable the patterns use: targets may mention it too
+    G, H, P2, A, B = t['G'], t['H'], t['P2'], t['A'], t['B']
     return [tp.TypeParameter('T0'), tp.TypeParameter('TA', bound=t['A']), tp.TypeParameter('TB', bound=t['B']),
-            tp.TypeParameter('TG', bound=t['G'].new([t['A']]))]
+            tp.TypeParameter('TG', bound=t['G'].new([t['A']])),
+            P2.new([G.new([X]), A]), P2.new([G.new([X]), X]), P2.new([H.new([X]), G.new([A])]),
+            P2.new([A, G.new([B])]), P2.new([A, P2.new([A, B])]), P2.new([B, P2.new([A, A])])]
 
 
 def targets(t, depth):
@@ -241,8 +250,8 @@ def jobs(tier):
         out.append(Job('pairs-depth%d-%s' % (d, 'same' if same else 'super'), h_pairs, dict(depth=d, same_type=same),
                        split_depth=1, functions=FUNCS, require_events=['pairs', 'nonempty'], budget_s=1800,
                        crosscheck_every=3,
-                       bounds='19 patterns (<=3 variables, bounded by a class / by G<X>, repeated, projected, nested) x all '
-                              'ground targets of depth <= %d over the table plus 4 type-variable targets; same_type=%s' % (d, same), outside=OUT))
+                       bounds='23 patterns (<=3 variables, bounded by a class / by G<X>, repeated, projected, nested) x all '
+                              'ground targets of depth <= %d over the table plus 10 targets that are or mention type variables; same_type=%s' % (d, same), outside=OUT))
     return out
 
 
